@@ -36,7 +36,7 @@ func c11Gen(r *driver.Rand, thorough bool) *driver.Plan {
 	p := c11Base(stage, genCap(r), take)
 	p.Fn = r.Intn(60)
 	if stage == "Emit" {
-		p.IntervalMs = driver.Pick(r, 1, 10, 1000)
+		p.IntervalMs = driver.Pick(r, 1, 10, 1000, 1+r.Intn(40), 15, 25, 1234)
 		if r.Chance(1, 5) {
 			// frequencies that are not whole milliseconds
 			p.IntervalMs = driver.Pick(r, 0, 1, 2)
@@ -49,9 +49,27 @@ func c11Gen(r *driver.Rand, thorough bool) *driver.Plan {
 					p.FailAt = append(p.FailAt, i)
 				}
 			}
+		} else if r.Chance(1, 6) {
+			p.Mode = "lift" // ends with the first failure: values before it, then both channels close
+			p.FailAt = []int{r.Intn(take + 2)}
 		}
 	} else {
 		p.FnArg = r.Intn(50)
+		if r.Chance(1, 6) {
+			p.Mode = "lift"
+			p.FailAt = []int{r.Intn(take + 2)}
+		}
+	}
+	if p.Mode == "lift" {
+		switch r.Intn(3) {
+		case 0:
+			p.Consumers[2].StartMs = 5000 // the error reader shows up late
+		case 1:
+			p.Consumers[2].Abandon = 0 // nobody ever reads the error channel
+		}
+	}
+	if p.Mode != "pure" && r.Chance(1, 4) {
+		p.SetX("err_kind", 1+r.Intn(2))
 	}
 	// consumer receive schedules on the virtual clock
 	c := &p.Consumers[0]
